@@ -99,48 +99,6 @@ theorem C07_covering_state (c : List (RSite α)) (cs : List (List (RSite α))) (
       ring
   rw [this 1, one_mul]
 
-/-- a local MPS of the covering: sorted index map and tensors (outer legs trivial) -/
-structure LocalOK (L : Nat) (l : List Nat × List (RSite α)) : Prop where
-  chain : ChainOK 1 l.2
-  len : l.1.length = l.2.length
-  sorted : l.1.Pairwise (· < ·)
-  inside : ∀ j ∈ l.1, j < L
-  last : 0 < lastDim 1 l.2
-
-theorem padChain_length (dphys : Nat → Nat) (n : Nat) : ∀ (i χ : Nat) (im : List Nat) (ls : List (RSite α)),
-    (padChain dphys n i χ im ls).length = n := by
-  induction n with
-  | zero => intro i χ im ls; rfl
-  | succ n ih =>
-    intro i χ im ls
-    cases im with
-    | nil => simp [padChain, ih]
-    | cons j im =>
-      cases ls with
-      | nil => simp [padChain, ih]
-      | cons s ls =>
-        by_cases hij : i = j
-        · simp [padChain, hij, ih]
-        · simp [padChain, hij, ih]
-
-theorem padChain_chainOK (dphys : Nat → Nat) (n : Nat) : ∀ (i χ : Nat) (im : List Nat) (ls : List (RSite α)),
-    ChainOK χ ls → im.length = ls.length → ChainOK χ (padChain dphys n i χ im ls) := by
-  induction n with
-  | zero => intro i χ im ls _ _; trivial
-  | succ n ih =>
-    intro i χ im ls hc hlen
-    cases im with
-    | nil => simp only [padChain]; exact ⟨rfl, ih _ _ [] [] trivial rfl⟩
-    | cons j im =>
-      cases ls with
-      | nil => simp only [padChain]; exact ⟨rfl, ih _ _ [] [] trivial rfl⟩
-      | cons s ls =>
-        by_cases hij : i = j
-        · simp only [padChain, hij, if_true]
-          exact ⟨hc.1, ih _ _ im ls hc.2 (by simpa using hlen)⟩
-        · simp only [padChain, hij, if_false]
-          exact ⟨rfl, ih _ _ (j :: im) (s :: ls) hc hlen⟩
-
 /-- **`from_product_mps_covering` denotes the product of the local states.**  For local MPS
 `l₀, l₁, …` with sorted index maps inside `[0, L)`, the chain assembled by the code has, on every
 configuration `σ` of the `L` sites, the amplitude `Π_k ψ_k(σ restricted to the sites of l_k)`. -/
